@@ -328,7 +328,7 @@ func c07ObjOrder(c *Case) {
 func c07Cases(tier string) int {
 	n := len(c07Matrix())*3 + 300 + len(c07Headers())*3 + len(c07Longs())
 	if tier == "thorough" {
-		return n + 400000
+		return n + 2000000
 	}
 	return n + 60000
 }
